@@ -442,3 +442,54 @@ type vJWords struct {
 func H_C20T_word_slices() {
 	vC20Check("slices of uint16 and arrays of uint32", vJWords{W: []uint16{1, 65535, vndUint16("w")}, X: [2]uint32{vndUint32("x"), 4294967295}})
 }
+
+// ---- round 4 ----
+
+// field names have no meaning to the dumper: fields called like time fields but holding structs, pointers to
+// structs, strings and numbers are dumped like any other field of their kind
+type vJNamedLikeTime struct {
+	CreateTime vJLeaf
+	UpdateTime *vJLeaf
+	Time       string
+	EndTime    int
+	TimeZone   vJEmpty
+	ExpireTime map[string]vJLeaf
+	Times      []vJLeaf
+}
+
+func H_C20_names_like_time() {
+	o := &vJNamedLikeTime{CreateTime: vJLeaf{N: vJSONText("cn", 1), K: vPickInt("ck")}, Time: vJSONText("t", 2), EndTime: vPickInt("e")}
+	if vndBool("u") {
+		o.UpdateTime = &vJLeaf{N: "u", K: 2}
+	}
+	if vndBool("x") {
+		o.ExpireTime = map[string]vJLeaf{"k": {N: "x"}}
+	}
+	if vndBool("s") {
+		o.Times = []vJLeaf{{N: "s"}}
+	}
+	vC20Check("fields named like time fields", o)
+}
+
+// a dump handed out stays as it was handed out: later dumps (which reuse pooled buffers) do not change it
+func H_C20_earlier_dump_unchanged() {
+	vPoolMode("lifo")
+	a := &vJLeaf{N: vJSONText("an", 2), K: vPickInt("ak")}
+	d1 := GetDumpStructStr(a)
+	keep := string([]byte(d1))
+	var d2 string
+	switch vndChoice("second", 3) {
+	case 0:
+		d2 = GetDumpStructStr(&vJLeaf{N: vJSONText("bn", 2), K: vPickInt("bk")})
+	case 1:
+		d2 = GetDumpStructStr(&vJScalars{S: vJSONText("bs", 3), B: true, I8: -1, U64: 7, F64: 2.5})
+	case 2:
+		d2 = GetDumpStructStr(vJEmpty{})
+	}
+	vAssert(d1 == keep, "C20 a dump handed out earlier is not changed by a later dump")
+	d3 := GetDumpStructStr(a)
+	vAssert(d3 == keep, "C20 the same value dumps to the same text again")
+	vAssert(d1 == keep, "C20 a dump handed out earlier is not changed by later dumps")
+	vAssert(vSameJSON(d1, vRefJSON(reflect.ValueOf(a))) && len(d2) > 0, "C20 the earlier dump is still the document of its value")
+	vReach("end")
+}
